@@ -37,6 +37,10 @@ type Doc struct {
 	// the foreign producer (Base = those bytes).
 	Foreign *foreign.Result
 	Base    []byte
+	// StablePath, when set, is the one file this document is saved to and opened from for the whole run (the way a program
+	// that keeps re-saving report.docx uses the library); the file stays on disk between the calls. Otherwise every save
+	// and every open goes through a fresh file name that is removed at once.
+	StablePath string
 }
 
 // Obs is what one operation returned, in canonical text form.
@@ -71,6 +75,7 @@ type World struct {
 	// returns 1..k bytes per Read (legal, must not change any result).
 	ShortReadRng *sim.Rand
 	FilePrefix   string // prefix of the file names this world saves under (tasks that share a directory)
+	Stable       bool   // documents get a StablePath
 	nfile        int
 }
 
@@ -91,7 +96,11 @@ func (w *World) Doc(i int) *Doc {
 		i = 0
 	}
 	for len(w.Docs) <= i {
-		w.Docs = append(w.Docs, &Doc{Slot: len(w.Docs), D: document.New()})
+		d := &Doc{Slot: len(w.Docs), D: document.New()}
+		if w.Stable {
+			d.StablePath = filepath.Join(w.Tmp, fmt.Sprintf("%sdoc%d.docx", w.FilePrefix, d.Slot))
+		}
+		w.Docs = append(w.Docs, d)
 	}
 	return w.Docs[i]
 }
@@ -194,7 +203,33 @@ func (w *World) apply(ds *Doc, op sim.Op, o *Obs) {
 		w.opProcessRestart(op, o)
 	case k == "foreign": // I[0]=seed, I[1]=feature flags, I[2]=open path
 		res := foreign.Build(uint64(op.Int(0)), op.Int(1))
-		d2, err := w.OpenBytes(res.Bytes, op.Int(2))
+		src := ""
+		if w.Stable {
+			src = filepath.Join(w.Tmp, fmt.Sprintf("%ssource%d.docx", w.FilePrefix, ds.Slot)) // the producer's file: opened, never written by the library
+		}
+		d2, err := w.OpenBytesAt(res.Bytes, op.Int(2), src)
+		o.Err = err
+		if err != nil {
+			ds.Dead = true
+			o.Res = "open-err"
+			return
+		}
+		w.Extra[fmt.Sprintf("foreign-src:%d", ds.Slot)] = []any{res, op.Int(2), src}
+		ds.D, ds.Foreign, ds.Base, ds.Dead = d2, res, res.Bytes, false
+		ds.Paras, ds.Tables, ds.Images = nil, nil, nil
+		if d2.Body != nil {
+			ds.Paras = append(ds.Paras, d2.Body.GetParagraphs()...)
+			ds.Tables = append(ds.Tables, d2.Body.GetTables()...)
+		}
+		w.Stats.Probe("foreign_opened")
+	case k == "foreign.again": // I[0]=slot whose producer file is opened once more, the same way, into this slot
+		v, _ := w.Extra[fmt.Sprintf("foreign-src:%d", op.Int(0))].([]any)
+		if v == nil {
+			o.Skipped, o.Res = true, "skip"
+			return
+		}
+		res, via, src := v[0].(*foreign.Result), v[1].(int), v[2].(string)
+		d2, err := w.OpenBytesAt(res.Bytes, via, src)
 		o.Err = err
 		if err != nil {
 			ds.Dead = true
@@ -207,7 +242,7 @@ func (w *World) apply(ds *Doc, op sim.Op, o *Obs) {
 			ds.Paras = append(ds.Paras, d2.Body.GetParagraphs()...)
 			ds.Tables = append(ds.Tables, d2.Body.GetTables()...)
 		}
-		w.Stats.Probe("foreign_opened")
+		w.Stats.Probe("foreign_source_opened_again")
 	case k == "tpl.render":
 		w.opTplRender(ds, op, o)
 	case k == "md": // S[0]=markdown source, I[0]=option bits: the slot's document becomes the conversion result
@@ -296,13 +331,17 @@ func (w *World) newPath(ext string) string {
 // Serialize saves through one of the two entry points and returns the bytes.
 func (w *World) Serialize(ds *Doc, via int) ([]byte, error) {
 	if via == 1 {
-		p := w.newPath(".docx")
+		p := ds.StablePath
+		if p == "" {
+			p = w.newPath(".docx")
+			defer os.Remove(p)
+		} else {
+			w.Stats.Probe("saves_over_the_documents_own_file")
+		}
 		if err := ds.D.Save(p); err != nil {
 			return nil, err
 		}
-		b, err := os.ReadFile(p)
-		os.Remove(p)
-		return b, err
+		return os.ReadFile(p)
 	}
 	return ds.D.ToBytes()
 }
@@ -385,6 +424,12 @@ func (s *shortReader) Close() error { return nil }
 // OpenBytes opens a package through one of the open paths: 0 memory (whole
 // reads), 1 memory with short reads, 2 from a file.
 func (w *World) OpenBytes(b []byte, via int) (*document.Document, error) {
+	return w.OpenBytesAt(b, via, "")
+}
+
+// OpenBytesAt is OpenBytes with the file to use for the path-based way ("" = a fresh name, removed after the call; otherwise
+// the bytes are put there - they are what the file holds - and the file stays).
+func (w *World) OpenBytesAt(b []byte, via int, path string) (*document.Document, error) {
 	switch via {
 	case 1:
 		var n int64
@@ -396,11 +441,19 @@ func (w *World) OpenBytes(b []byte, via int) (*document.Document, error) {
 		w.Stats.Faults["R-short"] += n
 		return d, err
 	case 2:
-		p := w.newPath(".docx")
-		if err := os.WriteFile(p, b, 0o644); err != nil {
-			return nil, err
+		p := path
+		if p == "" {
+			p = w.newPath(".docx")
+			defer os.Remove(p)
+		} else {
+			w.Stats.Probe("opens_of_the_documents_own_file")
 		}
-		defer os.Remove(p)
+		// a file that already holds these bytes is left alone (its modification time is part of what the file system shows)
+		if have, err := os.ReadFile(p); path == "" || err != nil || !bytes.Equal(have, b) {
+			if err := os.WriteFile(p, b, 0o644); err != nil {
+				return nil, err
+			}
+		}
 		return document.Open(p)
 	}
 	return document.OpenFromMemory(io.NopCloser(bytes.NewReader(b)))
@@ -420,7 +473,7 @@ func (w *World) opRestart(ds *Doc, op sim.Op, o *Obs) {
 	for _, ob := range w.Obsv {
 		ob.OnSave(w, ds, b)
 	}
-	d2, err := w.OpenBytes(b, op.Int(1))
+	d2, err := w.OpenBytesAt(b, op.Int(1), ds.StablePath)
 	if err != nil {
 		o.Err = err
 		o.Res = "open-err"
